@@ -479,14 +479,26 @@ def _wallet_history(ctx: Ctx, rng: SimRng) -> None:
     n_ops = 5 + ch.draw(35, "nops")
     for _ in range(n_ops):
         op = ch.weighted(
-            [("address", 6), ("next", 8), ("spk", 2), ("position_of", 2), ("info", 2), ("contains", 1), ("bad", 3), ("assert_derives", 1), ("perturb", 2)],
+            [("address", 6), ("next", 8), ("spk", 2), ("position_of", 2), ("info", 2), ("contains", 1), ("bad", 3), ("assert_derives", 1), ("perturb", 2)]
+            + ([("add-key", 2)] if hasattr(w, "add") and hasattr(twin, "_derived_xkey") else []),
             "op",
         )
         if op == "perturb":
             _perturb(ctx)
             continue
         b = ch.pick(branches, "branch")
-        if op == "address":
+        if op == "add-key":
+            # a loose key taken into the wallet -- one the account itself derives at (b, i), so its address is a
+            # position's address reaching the ledger by another door. It is recorded (once) and hands out no position
+            i = ch.pick([0, 1, 2, 3, 5, 8, 13, 40], "index")
+            key = twin._derived_xkey(b, i)
+            with ctx.must_succeed(P, "add-succeeds", "add"):
+                a = w.add(key if ch.draw(2, "add.form") else key.b58encode())
+            if a not in ledger:
+                ledger.append(a)
+            ctx.probe("loose-key-is-a-position" if a == expect_address(b, i) else "loose-key-elsewhere")
+            ctx.log("add-key", b, i, a[:12])
+        elif op == "address":
             i = ch.pick([0, 1, 2, 3, 5, 8, 13, 40], "index")
             with ctx.must_succeed(P, "address-succeeds", "address"):
                 a = w.address(b, i)
